@@ -76,6 +76,11 @@ func c02Oracle(c c02Case, rt []int64) (clause, what string, nontrivial bool, dev
 		if rt[i] < s.Req && s.W > 0 {
 			unsatisfiedWeighted = true
 		}
+		// "in proportion to their shared weights": the proportional share of a sibling with weight 0 is nothing, however
+		// much is left (seed C02-5: an 'uncontended' fast path gave every borrower its request)
+		if s.W == 0 && s.Req > m[i] && rt[i] > m[i] {
+			return "zero-weight-share", fmt.Sprintf("sibling %d has shared weight 0 but got %d, above its guaranteed part %d", i, rt[i], m[i]), false, 0
+		}
 	}
 	total := bi(c.Total)
 	// conservation: nothing is created. The siblings together get at most the parent's amount, or exactly the
